@@ -8,3 +8,5 @@ package runtime
 func verifCtx(kind string, ctx RuntimeContext, def *RuntimeContextDef, a, b uint64) {}
 
 func verifThread(kind string, t *Thread, other *Thread) {}
+
+func verifNow() (uint64, bool) { return 0, false }
